@@ -69,6 +69,25 @@ func vfRepoRoundTrip(t *rapid.T, w []byte, compression bool) ([]byte, int) {
 	if err != nil {
 		t.Fatalf("Pack(compression=%v) of an accepted message failed: %v\ninput %s", compression, err, vfkit.Hex(w))
 	}
+	// A message can be encoded more than once (the other way in between, or again after a buffer that was too small):
+	// the object carries no state from one encoding into the next, so every encoding of it is the same octets.
+	if rapid.IntRange(0, 3).Draw(t, "packAgain") == 0 {
+		if rapid.Bool().Draw(t, "smallBufferFirst") && n > 13 {
+			if _, err := m.Pack(make([]byte, rapid.IntRange(12, n-1).Draw(t, "smallBuffer")), compression, 0); err == nil {
+				t.Fatalf("Pack into a buffer shorter than its own output succeeded\ninput %s", vfkit.Hex(w))
+			}
+		}
+		if rapid.Bool().Draw(t, "otherWayInBetween") {
+			if _, err := m.Pack(make([]byte, l), !compression, 0); err != nil {
+				t.Fatalf("Pack(compression=%v) of an accepted message failed: %v\ninput %s", !compression, err, vfkit.Hex(w))
+			}
+		}
+		b2 := make([]byte, l)
+		n2, err := m.Pack(b2, compression, 0)
+		if err != nil || !bytes.Equal(b2[:n2], b[:n]) {
+			t.Fatalf("a second Pack(compression=%v) of the same message object gives other octets (err=%v)\nfirst  %s\nsecond %s\ninput  %s", compression, err, vfkit.Hex(b[:n]), vfkit.Hex(b2[:n2]), vfkit.Hex(w))
+		}
+	}
 	return b[:n], l
 }
 
